@@ -51,16 +51,56 @@ def generate(world, con, variant, fi, n_models=40, seconds=90):
     rnd = random.Random(int(os.environ.get('VERIF_SEED', '0')))
     terms0 = _probe_terms(runner.pc, 60)
     nums = [t for t in terms0 if t.sort() in (z3.IntSort(), z3.RealSort())]
+    conts = [v for v in vars_.values() if isinstance(v, (DictV, ListV, SetV))]
+
+    def at_least(v, n, tag):
+        """the container parameter holds at least n (distinct) elements / keys"""
+        if n == 0:
+            return z3.BoolVal(True)
+        if isinstance(v, ListV):
+            return eng.list_len(v) >= n
+        chi = (eng.dict_has(v)[1] if isinstance(v, DictV) else eng.set_chi(v))
+        chi = chi[v.ref] if isinstance(v, DictV) else chi
+        ks = [z3.Const(f'gen!{tag}!{i}', chi.sort().domain()) for i in range(n)]
+        cs = [chi[x] for x in ks] + ([z3.Distinct(*ks)] if n > 1 else [])
+        if chi.sort().domain() == Str:
+            cs += [x != STR_NONE for x in ks]
+        if isinstance(v, DictV) and v.vty in (INT, REAL):
+            # numeric values: positive and pairwise different (all-zero entries hide every accounting mistake)
+            val = eng.dict_val(v)[1][v.ref]
+            cs += [val[x] == 10 * (i + 1) for i, x in enumerate(ks)]
+        return z3.And(cs)
+
     while len(scenarios) < n_models and time.time() - t0 < seconds and k < 3 * n_models:
         es, er = sizes[k % len(sizes)]
         k += 1
         goal = z3.And(blocks) if blocks else z3.BoolVal(True)
-        # boundary bias: two out of three models are asked to make two numeric terms of the pre-state equal
-        if k % 3 and len(nums) >= 2:
+        # container parameters are asked to hold 0, 1, 2, 3 elements in turn (the unconstrained models are all empty)
+        for ci, v in enumerate(conts):
+            try:
+                goal = z3.And(goal, at_least(v, (k + ci) % 4, f'{k}_{ci}'))
+            except Exception:
+                pass
+        want = max([(k + ci) % 4 for ci in range(len(conts))] or [0])
+        if want:
+            # every element drags its objects along (an identifier known to the mapper = an entry, an id object, a view)
+            es, er = es + want, er + 5 * want
+        # boundary bias: half of the models are asked to make two numeric terms of the pre-state equal, a quarter to make
+        # two integer terms (collection sizes, loads, counters) at least 2 (several elements in a container, several
+        # entries hitting one key) and two string / reference probes equal (entries that collide)
+        if k % 4 in (1, 2) and len(nums) >= 2:
             a, b = rnd.sample(nums, 2)
             if a.sort() == b.sort():
                 goal = z3.And(goal, a == b)
-        r, m, _ = finite.refute(runner.pc, goal, es, er, 4000, runner.str_consts)
+        elif k % 4 == 3:
+            ints = [t for t in nums if t.sort() == z3.IntSort()]
+            for a in rnd.sample(ints, min(2, len(ints))):
+                goal = z3.And(goal, a >= 2)
+            strs = [t for t in terms0 if t.sort() == Str]
+            if len(strs) >= 2:
+                a, b = rnd.sample(strs, 2)
+                goal = z3.And(goal, a == b)
+        r, m, _ = finite.refute(runner.pc, goal, es, er, 4000 if not want else 8000, runner.str_consts)
         if r != z3.sat:
             continue
         try:
@@ -75,6 +115,23 @@ def generate(world, con, variant, fi, n_models=40, seconds=90):
         except z3.Z3Exception:
             break
     return scenarios
+
+
+def _export_head():
+    """the committed version of the package (git HEAD of /repo) in a scratch directory, None when it cannot be had"""
+    import subprocess
+    import tempfile
+    d = tempfile.mkdtemp(prefix='pyvc_ref_')
+    try:
+        p = subprocess.run('git -C /repo archive HEAD supvisors | tar -x -C ' + d, shell=True, capture_output=True, text=True,
+                           timeout=120)
+        if p.returncode != 0 or not __import__('os').path.isdir(__import__('os').path.join(d, 'supvisors')):
+            raise RuntimeError(p.stderr[-200:])
+        return d
+    except Exception:
+        import shutil
+        shutil.rmtree(d, ignore_errors=True)
+        return None
 
 
 def run(world, con, variant, fi):
@@ -98,6 +155,26 @@ def run(world, con, variant, fi):
         ran += 1
         for name in rep.get('failed', []):
             fails.setdefault(name, (scn, rep))
+    # Generated pre-states may be junk the precondition does not exclude (a None key in a Dict[str, int], ...): a failing
+    # input only counts when the COMMITTED version of the repository (git HEAD of /repo, exported to a scratch directory
+    # and removed) passes the same clause on the same input - a differential filter.  When the working tree is the
+    # committed tree the filter lets nothing through: the fallback then finds nothing, it never raises a false alarm.
+    if fails:
+        ref_dir = _export_head()
+        try:
+            if ref_dir is None:
+                fails = {}
+            else:
+                for name in list(fails):
+                    scn, rep = fails[name]
+                    ref = concrete.run_subprocess(dict(doc, scenarios=[scn]), repo=ref_dir)
+                    ref0 = ref[0] if isinstance(ref, list) and ref else {}
+                    if ref0.get('reproduced') is None and not ref0.get('failed') or name in ref0.get('failed', []):
+                        del fails[name]      # the reference fails too (junk input) or could not be run: not counted
+        finally:
+            if ref_dir:
+                import shutil
+                shutil.rmtree(ref_dir, ignore_errors=True)
     fn = con.target.split(':')[1]
     for name, (scn, rep) in fails.items():
         o = Obligation(f'bounded:{name}/{fn}', 'bounded', 'refuted', 0.0, f'native run on {ran} inputs generated from the precondition',
